@@ -67,7 +67,11 @@ def _case(draw, tier):
                 n.pop("cache", None)
     c["self_unregister"] = prob(draw, 0.25)  # the failing observer removes itself from the caller's list when it fails
     c["unhashable"] = prob(draw, 0.2)  # observers written as @dataclass / with __eq__ are not hashable
-    c["exc"] = draw(st.sampled_from(["message", "message", "empty", "bare_class", "multiline", "non_str_args", "keyerror_empty"]))
+    c["exc"] = draw(st.sampled_from(["message", "message", "empty", "bare_class", "multiline", "non_str_args", "keyerror_empty",
+                                     "timeout", "timeout", "connection", "assertion", "stop_iteration"]))
+    # the observed call is the SECOND one on the same runner (warm cache: cached nodes are served as cache hits, which have their
+    # own emission sites)
+    c["warm"] = prob(draw, 0.5)
     c["idx_draw"] = draw(st.lists(st.integers(0, 10_000), min_size=40, max_size=40))
     return c
 
@@ -92,6 +96,14 @@ def _exc(kind, where):
         return ValueError(3, None, (where,))
     if kind == "keyerror_empty":
         return KeyError("")
+    if kind == "timeout":
+        return TimeoutError(f"sink timed out {where}")  # what a slow exporter raises (asyncio.TimeoutError is this class)
+    if kind == "connection":
+        return ConnectionResetError(f"sink went away {where}")
+    if kind == "assertion":
+        return AssertionError(f"observer self-check {where}")
+    if kind == "stop_iteration":
+        return StopIteration(where)
     return RuntimeError(f"observer failure {where}")
 
 
@@ -212,8 +224,16 @@ def check_case(case, ev):
     Probe, AsyncProbe = _make_probe_classes(case.get("exc", "message"), suspend, case.get("unhashable", False))
     P = AsyncProbe if use_async_style else Probe
 
+    warm = bool(case.get("warm")) and _any_cached(case.get("nodes") or []) and not suspend
+    if warm:
+        labels.add("warm_cache_second_call_observed")
+
     def run_with(procs_fn):
-        return execute(case, procs_fn, n_calls=1)
+        if not warm:
+            return execute(case, procs_fn, n_calls=1)
+        # the first call (no observers) fills the runner's cache; the second, observed one is judged
+        calls_, wg, cx = execute(case, lambda i, rk: [] if i == 0 else procs_fn(i, rk), n_calls=2)
+        return calls_[1:], wg, cx
 
     try:
         bare_calls, _, _ = run_with(lambda i, rk: [])
